@@ -130,14 +130,14 @@ package options
 // the operator wrote (the deprecated force-code-challenge-method is only a fallback for an unset code-challenge-method)
 //@ func (*LegacyProvider).convert
 //@ prop C04 C05 C08 C14
-//@ ensures[exactly-one-provider] ret1 == nil && len(ret0) == 1
-//@ ensures[pkce-method-configured-else-the-deprecated-force-flag] ret0[0].CodeChallengeMethod
+//@ ensures[exactly-one-provider] ret1 == nil ==> len(ret0) == 1
+//@ ensures[pkce-method-configured-else-the-deprecated-force-flag] ret1 == nil ==> ret0[0].CodeChallengeMethod
 //@     == ite(old(l.CodeChallengeMethod) != "", old(l.CodeChallengeMethod), old(l.ForceCodeChallengeMethod))
-//@ ensures[client-and-endpoints-as-configured] ret0[0].ClientID == old(l.ClientID) && ret0[0].ClientSecret == old(l.ClientSecret)
+//@ ensures[client-and-endpoints-as-configured] ret1 == nil ==> ret0[0].ClientID == old(l.ClientID) && ret0[0].ClientSecret == old(l.ClientSecret)
 //@     && ret0[0].ClientSecretFile == old(l.ClientSecretFile) && ret0[0].LoginURL == old(l.LoginURL) && ret0[0].RedeemURL == old(l.RedeemURL)
 //@     && ret0[0].ProfileURL == old(l.ProfileURL) && ret0[0].ValidateURL == old(l.ValidateURL) && ret0[0].Scope == old(l.Scope)
 //@     && ret0[0].SkipClaimsFromProfileURL == old(l.SkipClaimsFromProfileURL) && ret0[0].AllowedGroups == old(l.AllowedGroups)
-//@ ensures[token-verification-options-as-configured] ret0[0].OIDCConfig.IssuerURL == old(l.OIDCIssuerURL)
+//@ ensures[token-verification-options-as-configured] ret1 == nil ==> ret0[0].OIDCConfig.IssuerURL == old(l.OIDCIssuerURL)
 //@     && ret0[0].OIDCConfig.InsecureAllowUnverifiedEmail == old(l.InsecureOIDCAllowUnverifiedEmail)
 //@     && ret0[0].OIDCConfig.InsecureSkipIssuerVerification == old(l.InsecureOIDCSkipIssuerVerification)
 //@     && ret0[0].OIDCConfig.InsecureSkipNonce == old(l.InsecureOIDCSkipNonce) && ret0[0].OIDCConfig.SkipDiscovery == old(l.SkipOIDCDiscovery)
@@ -145,7 +145,7 @@ package options
 //@     && ret0[0].OIDCConfig.EmailClaim == old(l.OIDCEmailClaim) && ret0[0].OIDCConfig.GroupsClaim == old(l.OIDCGroupsClaim)
 //@     && ret0[0].OIDCConfig.AudienceClaims == old(l.OIDCAudienceClaims) && ret0[0].OIDCConfig.ExtraAudiences == old(l.OIDCExtraAudiences)
 //@     && ret0[0].OIDCConfig.PublicKeyFiles == old(l.OIDCPublicKeyFiles)
-//@ ensures[keycloak-roles-and-entra-tenants-as-configured] (old(l.ProviderType) == "keycloak-oidc" ==> ret0[0].KeycloakConfig.Roles == old(l.AllowedRoles)
+//@ ensures[keycloak-roles-and-entra-tenants-as-configured] ret1 == nil ==> (old(l.ProviderType) == "keycloak-oidc" ==> ret0[0].KeycloakConfig.Roles == old(l.AllowedRoles)
 //@     && ret0[0].KeycloakConfig.Groups == old(l.KeycloakGroups))
 //@     && (old(l.ProviderType) == "entra-id" ==> ret0[0].MicrosoftEntraIDConfig.AllowedTenants == old(l.EntraIDAllowedTenants))
 
